@@ -16,12 +16,29 @@
     fuel never changes a result that was not the fuel error (unconditionally, now that limit and fuel
     errors are final inside `<specs>` too).
 
-  What is still decided per input by the unrolling oracle: while / until loops and `<for>` as whole
-  programs, bodies that need retries, and the embedding of the loop among other siblings (index shift,
-  one nesting level of depth).
+  * `Svgdx/Proofs/Unroll2.lean` (with `DepthShift.lean`) — the rest of the statement, same premise
+    (every element of every copy succeeds at its first attempt): `<if>` with a true test is its body in
+    place and with a false test is nothing; `<for>` is the sibling list `<var v=item idx=i/> body ...`;
+    `while` / `until` / count loops with or without a loop variable are N copies of the body, N being
+    the number of passes the tests allow (`LoopRun`, a trace over the states actually reached); and
+    **the embedding**: `pre ++ [control element] ++ post` and `pre ++ unrolling ++ post` give the same
+    events, box and final state (`*_among_siblings`, `replacement_among_siblings`) - the body of the
+    element runs one nesting level deeper than the inlined copies, which is not observable unless the
+    depth limit is hit (`depth_not_observable`, a third mutual induction over the 15 functions).
+    The theorems are namespaced `Svgdx.Props.C16x` at the end of Unroll2.lean and listed below.
+    Their side conditions are each backed by a kernel-checked counterexample in `Unroll2Example`
+    (they are facts about svgdx, not proof artefacts): `<for>` binds items raw while `<var>` evaluates
+    its right-hand side (items must be literals); the var limit is checked by `<var>` only; a test /
+    head / data expression that draws random numbers leaves a generator state the unrolling never
+    sees; an `id` on a control element registers a reuse template; at the depth limit the loop fails
+    where its unrolling renders (the premise is that the version WITH the element succeeds).
+
+  What is still decided per input by the unrolling oracle: bodies that need retries (forward
+  references inside or across copies).
 -/
 import Svgdx.Proofs.C16Laws
 import Svgdx.Proofs.Unroll
+import Svgdx.Proofs.Unroll2
 
 namespace Svgdx.Props.C16
 open Svgdx Ctl Gen
@@ -104,3 +121,19 @@ end Svgdx.Props.C16
 #print axioms Svgdx.Props.C16.fuel_does_not_decide
 #print axioms Svgdx.Ctl.UnrollExample.loop_is_unrolling
 #print axioms Svgdx.Ctl.UnrollExample.firstTry
+#print axioms Svgdx.Props.C16x.if_true_equals_body
+#print axioms Svgdx.Props.C16x.if_false_equals_nothing
+#print axioms Svgdx.Props.C16x.if_true_among_siblings
+#print axioms Svgdx.Props.C16x.if_false_among_siblings
+#print axioms Svgdx.Props.C16x.for_equals_unrolling
+#print axioms Svgdx.Props.C16x.for_and_unrolling_succeed
+#print axioms Svgdx.Props.C16x.for_element_equals_unrolling
+#print axioms Svgdx.Props.C16x.for_among_siblings
+#print axioms Svgdx.Props.C16x.while_loop_equals_unrolling
+#print axioms Svgdx.Props.C16x.until_loop_equals_unrolling
+#print axioms Svgdx.Props.C16x.until_at_least_once
+#print axioms Svgdx.Props.C16x.loop_element_any_mode_equals_unrolling
+#print axioms Svgdx.Props.C16x.loop_and_unrolling_succeed
+#print axioms Svgdx.Props.C16x.loop_among_siblings
+#print axioms Svgdx.Props.C16x.replacement_among_siblings
+#print axioms Svgdx.Props.C16x.depth_not_observable
